@@ -270,6 +270,60 @@ func (e *Engine) isLockSection(m *Monitor, fn *ssa.Function) bool {
 	return set[fn]
 }
 
+// mayReachHolder: can code reached from fn through static calls (and the function literals it creates) contain a
+// function that works on lock-protected state without taking the lock itself - one declared "holds <monitor>" or
+// exempted as "unpublished"? Every other module function that touches protected state is rejected by the
+// discipline obligation, so if none is reachable the callee leaves the protected state of held locks alone.
+func (e *Engine) mayReachHolder(fn *ssa.Function) bool {
+	e.lockSecMu.Lock()
+	defer e.lockSecMu.Unlock()
+	if e.holderMemo == nil {
+		e.holderMemo = map[*ssa.Function]bool{}
+	}
+	if v, ok := e.holderMemo[fn]; ok {
+		return v
+	}
+	seen := map[*ssa.Function]bool{}
+	var visit func(f *ssa.Function) bool
+	visit = func(f *ssa.Function) bool {
+		if f == nil || seen[f] {
+			return false
+		}
+		seen[f] = true
+		if c := e.ContractFor(f); c != nil && len(c.Holds) > 0 {
+			return true
+		}
+		for _, m := range e.DB.Monitors {
+			if containsStr(m.Unpublished, f.String()) {
+				return true
+			}
+		}
+		if len(seen) > 4000 {
+			return true
+		}
+		for _, b := range f.Blocks {
+			for _, in := range b.Instrs {
+				switch in := in.(type) {
+				case ssa.CallInstruction:
+					if cal := in.Common().StaticCallee(); cal != nil && cal.Pkg != nil && e.InModule(cal.Pkg.Pkg) || cal != nil && cal.Parent() != nil || cal != nil && cal.Origin() != nil {
+						if visit(cal) {
+							return true
+						}
+					}
+				case *ssa.MakeClosure:
+					if visit(in.Fn.(*ssa.Function)) {
+						return true
+					}
+				}
+			}
+		}
+		return false
+	}
+	v := visit(fn)
+	e.holderMemo[fn] = v
+	return v
+}
+
 func containsStr(xs []string, x string) bool {
 	for _, y := range xs {
 		if y == x {
